@@ -93,12 +93,14 @@ def serve_owner(line, pid, msg):
     # `svstart` lines are about start-up and the empty chain (C13; nothing answering is also C01's business); the bursts are not C13's
     if line.startswith("svbig"):
         return pid in ("C14", "C17") or (pid in ("C01", "C16") and "=> wrong" not in line)
-    return (pid in ("C13", "C01")) if line.startswith("svstart") else pid not in ("C13", "C14", "C17")
+    if line.startswith("svstart") and "range2" in line:
+        return pid in ("C13", "C02", "C01")
+    return (pid in ("C13", "C01")) if line.startswith("svstart") else pid not in ("C13", "C14", "C17", "C02")
 
 
 ENGINES["serve"] = dict(
     drv="serve", diverge_owner=serve_owner, starts=("sv6", "sv4", "svstart", "svbig"), trivial=r"$^", noshrink=True,
-    branches=["serve.big6", "serve.big4", "serve.start.empty", "serve.start.other", "serve.start.dns", "serve.l2-burst", "serve.sv6.q.procs1", "serve.sv6.l.procs1", "serve.sv6.q.procsn", "serve.sv6.l.procsn", "serve.sv4.q.procs1", "serve.sv4.l.procs1", "serve.sv4.q.procsn", "serve.sv4.l.procsn", "serve.answered"],
+    branches=["serve.big6", "serve.big4", "serve.start.empty", "serve.start.other", "serve.start.dns", "serve.start.probe", "serve.start.range2", "serve.l2-burst", "serve.sv6.q.procs1", "serve.sv6.l.procs1", "serve.sv6.q.procsn", "serve.sv6.l.procsn", "serve.sv4.q.procs1", "serve.sv4.l.procs1", "serve.sv4.q.procsn", "serve.sv4.l.procsn", "serve.answered"],
 )
 
 ENGINES["l2frame"] = dict(drv="l2frame", starts=(), trivial=r"=> unparsable$",
@@ -167,7 +169,7 @@ PROPS = {
                      "plugin names reach the loader lower-cased by viper"],
     ),
     "C01": dict(
-        engines=[("chain", 2500, 60000), ("dispatch4", 3000, 60000), ("dispatch6", 3000, 60000), ("prefix", 1500, 30000), ("filec", 40, 250), ("sys", 1500, 30000), ("serve", 11, 65),
+        engines=[("chain", 2500, 60000), ("dispatch4", 3000, 60000), ("dispatch6", 3000, 60000), ("prefix", 1500, 30000), ("filec", 40, 250), ("sys", 1500, 30000), ("serve", 13, 65),
                  ("prefixc", 600, 6000), ("rangec", 300, 3000), ("allocc", 600, 6000)],
         theorems=["C01_dispatch4", "C01_dispatch6", "C01_range_never_panics", "C01_alloc6_never_bug", "C01_alloc4_never_panics", "C01_chain_bounded"],
         modules=["CoreDhcp.Props.C01"],
@@ -179,8 +181,8 @@ PROPS = {
                      "'never blocks forever' is covered as: no modelled step waits on anything but a mutex, and every mutex is released"],
     ),
     "C16": dict(
-        engines=[("allocc", 3000, 60000), ("rangec", 1500, 20000), ("prefixc", 3000, 60000), ("dispatch4c", 3000, 60000), ("filec", 40, 250), ("serve", 12, 80)],
-        race_quick=[("serve", 8), ("allocc", 300), ("prefixc", 200)],
+        engines=[("allocc", 3000, 60000), ("rangec", 1500, 20000), ("prefixc", 3000, 60000), ("dispatch4c", 3000, 60000), ("filec", 40, 250), ("serve", 14, 80)],
+        race_quick=[("serve", 10), ("allocc", 300), ("prefixc", 200)],
         theorems=["C16_alloc6_any_schedule", "C16_alloc4_any_schedule", "C16_range_any_schedule", "C16_prefix_any_schedule", "C16_file_any_schedule"],
         modules=["CoreDhcp.Props.C16"],
         facts=["F1", "F2", "F4", "F10", "F11", "F12"],
@@ -217,7 +219,7 @@ PROPS = {
         assumptions=["'no prefix hint at all' = no IAPrefix option or only IAPrefix options of prefix-length 0; a length-only hint (::/n, n>0) is a hint", "leases are never expired or freed by the plugin (as in the code)"],
     ),
     "C11": dict(
-        engines=[("dispatch4", 6000, 100000), ("sys", 1500, 30000), ("serve", 11, 65)],
+        engines=[("dispatch4", 6000, 100000), ("sys", 1500, 30000), ("serve", 13, 65)],
         theorems=["C11_holds", "C11_never_answers_non_requests", "SYS_C11", "SYS_frame4"],
         modules=["CoreDhcp.Props.C11", "CoreDhcp.Props.System"],
         trusted_base=[TB_CODEC, TB_HOOK],
@@ -225,14 +227,14 @@ PROPS = {
                      "'every byte string' is 'every parse result, or parse failure': the byte parser is the library's"],
     ),
     "C12": dict(
-        engines=[("dispatch6", 6000, 100000), ("sys", 1500, 30000), ("serve", 11, 65)],
+        engines=[("dispatch6", 6000, 100000), ("sys", 1500, 30000), ("serve", 13, 65)],
         theorems=["C12_holds", "C12_mirror", "SYS_C12"],
         modules=["CoreDhcp.Props.C12", "CoreDhcp.Props.System"],
         trusted_base=[TB_CODEC, TB_HOOK],
         assumptions=["C12_holds: handlers return DHCPv6 messages (not relay messages) and keep type, transaction id, client id and rapid commit (Handler6.Preserving). SYS_C12 has no such hypothesis: every chain of built-in option plugins, server_id, file and prefix (composed model, tied by the sys engine)"],
     ),
     "C13": dict(
-        engines=[("dispatch4", 4000, 60000), ("dispatch6", 4000, 60000), ("plugins", 3000, 50000), ("sys", 1500, 30000), ("serve", 11, 65)],
+        engines=[("dispatch4", 4000, 60000), ("dispatch6", 4000, 60000), ("plugins", 3000, 50000), ("sys", 1500, 30000), ("serve", 13, 65)],
         theorems=["C13_order", "C13_stop", "C13_sends_last4", "C13_sends_last6", "C13_load_exact", "C13_load_aborts", "C13_load_succeeds", "SYS_file_stops4"],
         modules=["CoreDhcp.Props.C13", "CoreDhcp.Props.System"],
         facts=["F3", "F7", "F9"],
@@ -249,7 +251,7 @@ PROPS = {
         assumptions=["the listener is bound to an interface or the kernel reported the receiving one; the excluded point (link-level reply with no interface information) dereferences a nil control message in the code and is `panicNoIf` in the model"],
     ),
     "C02": dict(
-        engines=[("range", 2500, 20000), ("rangec", 1000, 15000), ("sys", 1500, 30000)],
+        engines=[("range", 2500, 20000), ("rangec", 1000, 15000), ("sys", 1500, 30000), ("serve", 3, 12)],
         theorems=["C02_holds", "C02_progress", "SYS_C02_lease4", "SYS_C02_addr4"],
         modules=["CoreDhcp.Props.C02", "CoreDhcp.Props.System"],
         facts=["F1"],
